@@ -238,7 +238,11 @@ func serve(c *call, ctx context.Context, stream grpc.ServerStream, first proto.M
 			case <-ctx.Done():
 				r.Code = hx.Code(ctx.Err())
 			case <-time.After(stepTimeout):
-				r.Kind = "hang"
+				if ctx.Err() != nil {
+					r.Code = hx.Code(ctx.Err())
+				} else {
+					r.Kind = "hang"
+				}
 			}
 		case "return":
 			err := statusOf(st)
